@@ -101,7 +101,9 @@ class Gen:
 
     def acyclic(self, cid):
         r = self.r
-        nk = r.randint(3, 4 if self.size == "quick" else 6)
+        # the from-scratch specification is evaluated without memoisation: keep the call graphs
+        # small (<= 10 nodes, as in the sequential engine)
+        nk = r.randint(3, 4 if self.size == "quick" else 5)
         ni = nk
         fam_order = {0: 0, 2: 1} if r.random() < 0.5 else {0: 1, 2: 0}
         nodes = []
@@ -253,16 +255,22 @@ def flatten(case_text):
     return sx(tree), imap
 
 
-def run_driver(texts, driver_bin):
+def run_driver(texts, driver_bin, shards=6):
     os.makedirs(os.path.join(common.BUILD, "cases"), exist_ok=True)
-    fd, path = tempfile.mkstemp(prefix="parspec", suffix=".txt", dir=os.path.join(common.BUILD, "cases"))
-    with os.fdopen(fd, "w") as f:
-        f.write("\n".join(texts) + "\n")
-    p = subprocess.run([driver_bin, path], stdout=subprocess.PIPE, stderr=subprocess.DEVNULL, text=True, timeout=1800)
-    os.unlink(path)
-    if p.returncode != 0:
-        raise common.CheckError(f"model driver exited with {p.returncode}")
-    return se.parse_output(p.stdout)
+    procs = []
+    for ch in [texts[i::shards] for i in range(shards) if texts[i::shards]]:
+        fd, path = tempfile.mkstemp(prefix="parspec", suffix=".txt", dir=os.path.join(common.BUILD, "cases"))
+        with os.fdopen(fd, "w") as f:
+            f.write("\n".join(ch) + "\n")
+        procs.append((path, subprocess.Popen([driver_bin, path], stdout=subprocess.PIPE, stderr=subprocess.DEVNULL, text=True)))
+    out = {}
+    for path, p in procs:
+        o, _ = p.communicate(timeout=1800)
+        os.unlink(path)
+        if p.returncode != 0:
+            raise common.CheckError(f"model driver exited with {p.returncode}")
+        out.update(se.parse_output(o))
+    return out
 
 
 def specification(cases, driver_bin):
